@@ -161,7 +161,7 @@ EditsOf(kind) ==
     [] kind = "ChangeDatum" -> {[k |-> "ChangeDatum", s |-> s] : s \in 1..5}
     [] kind = "AddConsistentObs" -> {[k |-> "AddConsistentObs", s |-> s] : s \in 1..3}
     [] kind = "ReplaceCovByStdev" -> {[k |-> "ReplaceCovByStdev"]}
-    [] kind = "AttachHeights" -> {[k |-> "AttachHeights", s |-> s] : s \in 1..2}
+    [] kind = "AttachHeights" -> {[k |-> "AttachHeights", s |-> s] : s \in 1..4}     \* 1: instrument heights, 2: both, 3: small target heights only, 4: small instrument heights only
     [] kind = "MakeFree" -> {[k |-> "MakeFree", s |-> s] : s \in 1..6}
     [] kind = "Isolate" -> {[k |-> "Isolate", s |-> s] : s \in 1..2}
     [] kind = "Blunder" -> {[k |-> "Blunder", obs |-> i, pct |-> pc, tol |-> tl, sig |-> sg] : i \in 1..8 \cup {LastObs}, pc \in {99, 101, 300}, tl \in {1, 10, 1000}, sg \in {10, 3, 40}}
